@@ -1298,6 +1298,12 @@ func (c *Client) readSlices() (message, topic []byte, err error) {
 				if err != nil {
 					return nil, nil, err
 				}
+				err = c.writeBuffersNoWait(net.Buffers{c.pendingAck})
+				if err != nil {
+					c.toOffline()
+					return nil, nil, err // keeps pendingAck to retry
+				}
+				c.pendingAck = c.pendingAck[:0]
 				continue
 			}
 
@@ -1327,7 +1333,11 @@ func (c *Client) readSlices() (message, topic []byte, err error) {
 				return message, topic, nil
 			}
 			if err == errDupe {
-				err = nil // can just skip
+				// can just skip, yet confirm again
+				err = c.writeBuffersNoWait(net.Buffers{c.pendingAck})
+				if err == nil {
+					c.pendingAck = c.pendingAck[:0]
+				} // else keeps pendingAck to retry
 			}
 		case typePUBACK:
 			err = c.onPUBACK()
@@ -1443,6 +1453,8 @@ func (c *Client) onPUBLISH(head byte) (message, topic []byte, err error) {
 			return nil, nil, err
 		}
 		if bytes != nil {
+			// The broker may have missed the PUBREC from before.
+			c.pendingAck = append(c.pendingAck[:0], typePUBREC<<4, 2, byte(packetID>>8), byte(packetID))
 			return nil, nil, errDupe
 		}
 
